@@ -569,8 +569,44 @@ func main() {
 			s := decode(cs)
 			var out []xs.Edge[cstate]
 			local := map[string]int{}
+			// The stored state holds the exported fields only. Edits are therefore applied to a LIVE object: a fresh
+			// machine on which the state's whole edit history (the shortest path found) is replayed with the real
+			// methods, so that whatever the object keeps internally across edits is there when the next edit runs.
+			var hist []op
+			for _, l := range ex.Path(id) {
+				var x op
+				json.Unmarshal([]byte(l), &x)
+				hist = append(hist, x)
+			}
+			live := func(extra ...op) *bondmachine.Bondmachine {
+				b := initial().bm
+				for _, x := range hist {
+					applyImpl(b, x)
+				}
+				for _, x := range extra {
+					applyImpl(b, x)
+				}
+				return b
+			}
+			if lv := live(); key(state{lv, s.rf}) != key(s) {
+				report(id, nil, "history-dependent-state", "replaying the edit history on a fresh machine does not give the machine the history gave step by step")
+				return nil
+			}
+			// key-preserving detours: delete the last external input (output) and add one again. When that leaves the
+			// machine unchanged (the deleted endpoint was unbonded), every later edit must act exactly as without it.
+			var detours [][]op
+			if len(hist)+3 <= lim.depth+2 {
+				for _, d := range [][]op{{{Kind: "del_input", Arg: s.bm.Inputs - 1}, {Kind: "add_input"}}, {{Kind: "del_output", Arg: s.bm.Outputs - 1}, {Kind: "add_output"}}} {
+					if d[0].Arg < 0 {
+						continue
+					}
+					if dv := live(d...); key(state{dv, s.rf}) == key(s) {
+						detours = append(detours, d)
+					}
+				}
+			}
 			for _, o := range enabledOps(s, lim) {
-				nb := copyBM(s.bm)
+				nb := live()
 				nr := s.rf.clone()
 				delName := ""
 				if o.Kind == "del_bond" {
@@ -606,6 +642,15 @@ func main() {
 				if c, d := inv(ns); c != "" {
 					report(id, &o, c, d)
 					continue
+				}
+				for _, dt := range detours {
+					db := live(dt...)
+					derr, dpan := applyImpl(db, o)
+					atomic.AddInt64(&traces, 1)
+					if dpan != nil || (derr == nil) != (err == nil) || key(state{db, nr}) != key(ns) {
+						report(id, &o, "history-dependent", fmt.Sprintf("the same edit gives a different machine when %s ; %s (which leave the machine unchanged) were done first: %v", dt[0].String(), dt[1].String(), dpan))
+						break
+					}
 				}
 				lb, _ := json.Marshal(o)
 				out = append(out, xs.Edge[cstate]{Label: string(lb), Next: encode(ns)})
